@@ -1,4 +1,4 @@
 From Coq Require Extraction.
 From Coq Require Import ExtrOcamlBasic.
-From NV Require Import Base.Witness Hostile.Panics Hostile.Fused CramRec.Features CramRec.Mates Hostile.MatesP.
-Extraction "model.ml" nv_types_witness seek_then query rfreq data_as_ref gff_attr_run resolve_view series_rec.
+From NV Require Import Base.Witness Hostile.Panics Hostile.Fused CramRec.Features CramRec.Mates Hostile.MatesP Hostile.BamAcc.
+Extraction "model.ml" nv_types_witness seek_then query rfreq data_as_ref gff_attr_run resolve_view series_rec read_record_view.
